@@ -91,20 +91,6 @@ Definition doc_char (c : N) : bool :=
   is_digit c || is_sign c || is_expmark_e c || is_expmark_d c || N.eqb c c_dot.
 Definition g_charset (s : str) : bool := forallb doc_char s.
 
-(* a signed mantissa with a D exponent (rejected by the code: finding) *)
-Definition signed_d (s : str) : bool :=
-  match s with
-  | c :: _ => is_sign c && existsb is_expmark_d s
-  | [] => false
-  end.
-
-(* the short-form pattern of the code matched the whole string (no ignored trailing characters) *)
-Definition g_anchored (s : str) : bool :=
-  match short_match s with
-  | Some (_, _, _, _, k) => Nat.eqb k (length s)
-  | None => true
-  end.
-
 (* item -> value: NULL, 24 characters, missing token, number *)
 Definition spec_item (nullstr mdt : str) (x : option str) : res cell :=
   let x1 := match x with
@@ -268,20 +254,6 @@ Definition doc_text_char (c : N) : bool := N.eqb c c_tab || N.eqb c c_nl || (N.l
 (* [class] printable ASCII, TAB and newline only *)
 Definition g_alphabet (i : input) : bool := forallb doc_text_char (i_text i).
 
-(* [finding] IGNORE=^ and IGNORE=\ make the comment pattern an invalid regular expression *)
-Definition g_ignchar (i : input) : bool := negb (regex_unsafe (ign_char (i_ignchar i))).
-
-(* [finding] a comment on the last line without a final newline is not removed *)
-Definition g_last_comment (i : input) : bool :=
-  negb (comment_line (ign_char (i_ignchar i)) (snd (lines_tail (i_text i)))).
-
-(* [finding] a blank line is only reported at the end of the text or before an empty line *)
-Definition g_blank (i : input) : bool :=
-  let ic := ign_char (i_ignchar i) in
-  let (ls, t) := lines_tail (i_text i) in
-  let kept := filter (fun l => negb (comment_line ic l)) ls in
-  negb (existsb (forallb is_blankc) (file_lines (kept, t))) || blank_error kept t.
-
 Definition data_lines (i : input) : list str :=
   filter (fun l => negb (spec_comment (ign_char (i_ignchar i)) l)) (all_lines (i_text i)).
 Definition data_rows (i : input) : list (list str) := map spec_items (data_lines i).
@@ -300,8 +272,6 @@ Definition g_edge_tab (i : input) : bool := forallb (fun l => negb (edge_tab l))
 
 Definition first_width (i : input) : nat := match data_rows i with r0 :: _ => length r0 | [] => 0 end.
 
-(* [finding] a first row with more items than $INPUT raises KeyError (pandas 3) *)
-Definition g_first_width (names : list str) (i : input) : bool := first_width i <=? length names.
 (* [finding] rows are cut to the width of the first row before they are padded *)
 Definition g_rows_within (names : list str) (i : input) : bool :=
   forallb (fun r => Nat.min (length r) (length names) <=? first_width i) (data_rows i).
@@ -312,14 +282,6 @@ Definition filter_kind (f : filt) : okind :=
   | Some t => match op_of_text t with Some tok => snd (op_table tok) | None => KStr end
   end.
 Definition is_kstr (k : okind) : bool := match k with KStr => true | KFloat => false end.
-
-(* [finding] a text filter on a column the file does not have sees the NULL padding *)
-Definition g_filter_cols (names : list str) (syn : list (str * str)) (i : input) : bool :=
-  forallb (fun f => negb (is_kstr (filter_kind f)) ||
-                    match index_of (filter_column syn f) names with
-                    | Some j => j <? first_width i
-                    | None => true
-                    end) (i_ignore i ++ i_accept i).
 
 (* columns whose items are converted to numbers: parsed columns and numerically filtered columns *)
 Fixpoint parse_flags (names : list str) (drops : list bool) : list bool :=
@@ -376,18 +338,11 @@ Definition filters_valid (names : list str) (syn : list (str * str)) (fs : list 
 Definition g_filters_valid (names : list str) (syn : list (str * str)) (i : input) : bool :=
   filters_valid names syn (i_ignore i ++ i_accept i).
 
-(* [class] a TIME column lies within the width of the first row *)
-Definition g_time_col (names : list str) (drops : list bool) (i : input) : bool :=
-  match index_of s_TIME names with
-  | Some j => nth j drops false || (j <? first_width i)
-  | None => true
-  end.
-
-Definition item_signed_d_ok (x : str) : bool := negb (signed_d x).
-Definition item_anchored_ok (x : str) : bool := g_anchored x.
 Definition item_charset_ok (x : str) : bool := g_charset x.
 
-(* the conjuncts, in the order of the guard tags 201..217 of Check.verdict *)
+(* the conjuncts, in the order of the guard tags 201..209 of Check.verdict.  Since the fix commits 8a96a4a,
+   f9c38b4, 0a78c77, 6a54a3e, c9e4304 the conjuncts g_ignchar, g_last_comment, g_blank, g_first_width,
+   g_filter_cols, the signed-D and anchoring item conjuncts (and with the None padding also g_time_col) are gone *)
 Definition guard_conjuncts (i : input) : list bool :=
   match column_info (i_options i) with
   | Err _ => []
@@ -395,12 +350,10 @@ Definition guard_conjuncts (i : input) : list bool :=
       let names := ci_names ci in
       let drops := ci_drop ci in
       let syn := ci_syn ci in
-      [ g_alphabet i; g_ignchar i; g_last_comment i; g_blank i; g_edge_tab i;
-        g_first_width names i; g_rows_within names i; g_filter_cols names syn i;
-        g_items item_signed_d_ok names drops syn i; g_items item_anchored_ok names drops syn i;
+      [ g_alphabet i; g_edge_tab i; g_rows_within names i;
         g_items item_charset_ok names drops syn i;
         g_id_drop names drops i; g_id_choice names drops; g_no_date names; g_names_unique names;
-        g_filters_valid names syn i; g_time_col names drops i ]
+        g_filters_valid names syn i ]
   end.
 Definition guard (i : input) : bool := forallb (fun b => b) (guard_conjuncts i).
 
@@ -483,7 +436,7 @@ Section Writer.
   Definition cycle_guard (mdt : str) (hdr : list str) (rows : list (list cell)) : bool :=
     let ic := hdr_ignchar hdr in
     let n := length hdr in
-    negb (regex_unsafe ic) && (1 <=? n) && nodup_s hdr && forallb name_ok hdr && negb (has_date hdr) &&
+    (1 <=? n) && nodup_s hdr && forallb name_ok hdr && negb (has_date hdr) &&
     comment_line ic (join_comma hdr) && negb (is_nil rows) &&
     forallb (fun r => Nat.eqb (length r) n && forallb (cell_ok mdt) r &&
                       negb (comment_line ic (join_comma (map (pr_cell mdt) r)))) rows &&
